@@ -112,8 +112,7 @@ def r_factorize(graph, q):
 def r_components(graph, q):
     from y0.algorithm.counterfactual_transport.ancestor_utils import get_ancestral_components
 
-    roots = {V(n) for n in graph.nodes()} if q is None else {V(n) for n in q}
-    res = get_ancestral_components(conditioned_variables=set(), root_variables={V(n.name) for n in graph.nodes()}, graph=graph)
+    res = get_ancestral_components(conditioned_variables=set(), root_variables=set(graph.nodes()), graph=graph)
     return sorted(sorted(map(str, c)) for c in res)
 
 
@@ -139,7 +138,62 @@ def r_tian(graph, q):
     return out
 
 
+def r_idcstar(graph, q):
+    from y0.algorithm.identify import Unidentifiable, idc_star
+
+    try:
+        return idc_star(graph, ev_of(q[:1]), ev_of(q[1:]))
+    except Unidentifiable:
+        return "unidentifiable"
+
+
+def r_trso(graph, q):
+    """P*(y | do x) with one source domain that experiments on x and observes y's other parent candidates."""
+    from y0.algorithm.transport import identify_target_outcomes
+    from y0.dsl import Pi1
+
+    (x,), (y,) = q
+    others = sorted(n.name for n in graph.nodes() if n.name not in (x, y))
+    return identify_target_outcomes(graph, target_outcomes={V(y)}, target_interventions={V(x)}, surrogate_outcomes={Pi1: {V(y)} | {V(o) for o in others[:1]}}, surrogate_interventions={Pi1: {V(x)}})
+
+
+def r_lvdag(graph, q):
+    from y0.graph import NxMixedGraph
+
+    lv = graph.to_latent_variable_dag()
+    back = NxMixedGraph.from_latent_variable_dag(lv)
+    return (sorted(map(str, back.nodes())), sorted(map(str, back.directed.edges())), sorted(str(tuple(sorted(map(str, e)))) for e in back.undirected.edges()))
+
+
+def r_evans(graph, q):
+    from y0.algorithm.simplify_latent import evans_simplify
+
+    out = evans_simplify(graph, latents=[V(q[0])])
+    return (sorted(map(str, out.nodes())), sorted(map(str, out.directed.edges())), sorted(str(tuple(sorted(map(str, e)))) for e in out.undirected.edges()))
+
+
+def r_ctf(graph, q):
+    """Unconditional counterfactual transport through the public wrapper, the target domain as only data source."""
+    from y0.algorithm.counterfactual_transport import api
+    from y0.dsl import TARGET_DOMAIN, CounterfactualVariable, Variable
+
+    ev = ev_of(q)
+    marked = [CounterfactualVariable(name=k.name, star=v.star, interventions=k.interventions) if isinstance(k, CounterfactualVariable) else Variable(name=k.name, star=v.star) for k, v in ev.items()]
+    dom = api.CFTDomain(graph=graph, population=TARGET_DOMAIN, policy_variables=set(), ordering=None)
+    res = api.unconditional_cft(event=marked, target_domain_graph=graph, domains=[dom])
+    return None if res is None else (res.expression, res.event)
+
+
+def singles(g):
+    for n in g.nodes:
+        yield [n]
+
+
 RUNS = {
+    "C05": {"identify_target_outcomes": (r_trso, xy)},
+    "C08": {"idc_star": (r_idcstar, events1)},
+    "C09": {"unconditional_cft": (r_ctf, events1)},
+    "C16": {"LV-DAG round trip": (r_lvdag, one_query), "evans_simplify": (r_evans, singles)},
     "C01": {"identify_outcomes": (r_id, xy)},
     "C03": {"identify_outcomes(conditions)": (r_idc, xyz)},
     "C04": {"are_d_separated": (r_dsep, pairs_with_sets)},
